@@ -118,6 +118,15 @@ ParenTableT == Tmpl("ParenTableExpr", <<T("("), N("Source", "JoinOnly"), T(")"),
 TVFT == << Tmpl("TVFCallExpr", <<N("Name", "TVFName"), T("("), L("Args", "TVFArg", ",", 0), T(")"), O("Hint", "Hint"), O("Sample", "TableSample")>>),
            Tmpl("TVFCallExpr", <<N("Name", "TVFName"), T("("), L("Args", "TVFArg", ",", 1), T(","), L("NamedArgs", "NamedArg", ",", 1), T(")")>>) >>
 SimpleTableT == <<TableNameT, PathTableT, UnnestT, SubQueryTableT, ParenTableT>> \o TVFT
+\* every table kind with all of its optional suffixes present at once (focused start QS_Table: the suffixes' order and
+\* the positions they contribute to are exercised jointly without spending budget on them)
+SimpleTableFullT == <<
+  Tmpl("TableName", <<N("Table", "TableId"), N("Hint", "Hint"), N("As", "AsAliasOpt"), N("Sample", "TableSample")>>),
+  Tmpl("PathTableExpr", <<N("Path", "TablePath"), N("Hint", "Hint"), N("As", "AsAliasOpt"), N("WithOffset", "WithOffset"), N("Sample", "TableSample")>>),
+  Tmpl("Unnest", <<T("UNNEST"), T("("), N("Expr", Expr), T(")"), N("Hint", "Hint"), N("As", "AsAliasOpt"), N("WithOffset", "WithOffset"), N("Sample", "TableSample")>>),
+  Tmpl("SubQueryTableExpr", <<T("("), N("Query", "QueryExprNoFrom"), T(")"), N("As", "AsAliasOpt"), N("Sample", "TableSample")>>),
+  Tmpl("ParenTableExpr", <<T("("), N("Source", "JoinOnly"), T(")"), N("Sample", "TableSample")>>),
+  Tmpl("TVFCallExpr", <<N("Name", "TVFName"), T("("), L("Args", "TVFArg", ",", 0), T(")"), N("Hint", "Hint"), N("Sample", "TableSample")>>) >>
 CondT == << Tmpl("On", <<T("ON"), N("Expr", Expr)>>), Tmpl("Using", <<T("USING"), T("("), L("Idents", "Ident", ",", 1), T(")")>>) >>
 MethodE == ENUM("Method", <<A("", <<>>), A("HASH", <<T("HASH")>>), A("LOOKUP", <<KW("LOOKUP")>>)>>)
 \* join operators; the first spelling is what SQL() prints
@@ -151,7 +160,7 @@ QueryTemplates(nt) ==
     [] nt = "QS_Suffix" -> QSSuffixT [] nt = "QueryOnly" -> QueryT
     [] nt = "TableSample" -> TableSampleT [] nt = "TableSampleSize" -> TableSampleSizeT [] nt = "WithOffset" -> WithOffsetT
     [] nt = "TablePath" -> TablePathT [] nt = "TVFName" -> TVFNameT [] nt = "TVFArg" -> TVFArgT
-    [] nt = "SimpleTable" -> SimpleTableT [] nt = "Cond" -> CondT [] nt = "JoinRightCond" -> JoinRightCondT [] nt = "JoinRightFree" -> JoinRightFreeT
+    [] nt = "SimpleTable" -> SimpleTableT [] nt = "SimpleTableFull" -> SimpleTableFullT [] nt = "Cond" -> CondT [] nt = "JoinRightCond" -> JoinRightCondT [] nt = "JoinRightFree" -> JoinRightFreeT
     [] nt = "TableExprTop" -> TableExprTopT [] nt = "JoinOnly" -> JoinOnlyT [] nt = "TableExprNested" -> TableExprNestedT
     [] OTHER -> <<>>
 ==============================================================================
